@@ -224,6 +224,16 @@ func runC02(c c02Case) (*vh.Violation, vh.Outcome) {
 	// confluence (metamorphic, independent of the model's step-by-step predictions): with one guardian set
 	// that contains the node's key and no peer VAAs, the set of published digests depends only on the multiset
 	confluent := c.Set.C >= 0
+	// two different messages under one id make the "stored and more than 30 s newer" rule of the local-message
+	// handler order dependent by design; the statement's confluence is about one message per id
+	for i := range c.Msgs {
+		for j := i + 1; j < len(c.Msgs); j++ {
+			a, b := c.Msgs[i], c.Msgs[j]
+			if a.IDSel == b.IDSel && a.Chain == b.Chain && a.TC == b.TC && a.Seq == b.Seq && a != b {
+				confluent = false
+			}
+		}
+	}
 	for _, x := range c.Events {
 		if x.K == "set" || x.K == "inbound" {
 			confluent = false
